@@ -629,7 +629,16 @@ def c03_project(model, style_seed: int):
             actions.append(A.amend(out=list(step.amend_out)))
         actions.extend(A.nop() for _ in range(r.randint(1, 3)))
         actions.extend(A.read(p, required=False) for p in step.inp + step.amend_inp)
-        actions.extend(A.write(p) for p in step.out + step.vol + step.amend_out)
+        outs = step.out + step.vol + step.amend_out
+        if outs and not step.amend_out and r.random() < 0.35:
+            # a tool that rewrites its outputs in place with the same final content whatever it read:
+            # a rerun reproduces identical outputs, and a reader in between sees the partial file
+            styles[step.cmd] = styles[step.cmd] + "+const"
+            actions.extend(A.write(p, f"partial {p}\n") for p in outs)
+            actions.append(A.nop())
+            actions.extend(A.write(p, f"constant content of {p}\n") for p in outs)
+        else:
+            actions.extend(A.write(p) for p in outs)
         project.scripts[step.cmd] = actions
     ext = model.glob_out_ext
 
@@ -654,6 +663,12 @@ def densify_amends(model, r: random.Random):
                                                                  if p not in step.inp]
             if pool:
                 step.amend_inp = [r.choice(pool)]
+                used = {p for st in model.steps for p in st.inp + st.amend_inp}
+                fresh_tree = [p for p in sorted(model.tree) if p not in used]
+                if fresh_tree and r.random() < 0.5:
+                    # ... together with a file of the static tree that nobody has used yet: it is adopted by
+                    # this very request and still UNCONFIRMED when the handler decides
+                    step.amend_inp.append(r.choice(fresh_tree))
         earlier.extend(step.all_outputs())
 
 
@@ -752,8 +767,8 @@ def run_build_case(spec: dict) -> dict:
         if spec["mode"] == "rebuild":
             first = sim.build(**kw, schedule=RandomSchedule(spec["sched_seed"] + 1))
             count("first-build:" + first.status)
-            path = rx.choice(sources)
-            sim.write(path, "edited between the builds\n")
+            for path in rx.sample(sources, min(len(sources), rx.choice([1, 2, 3]))):
+                sim.write(path, "edited between the builds\n")
             if rx.random() < 0.4:
                 sim.set_script("./plan.py", list(project.scripts["./plan.py"]) + [("nop",)])
         elif spec["mode"] == "after-crash":
@@ -761,7 +776,32 @@ def run_build_case(spec: dict) -> dict:
                                 crash_after_commit=spec["crash_at"])
             count("crashed-build:" + crashed.status)
         ext = externals()
-        res = sim.build(**kw, schedule=RandomSchedule(spec["sched_seed"]), external=ext, on_commit=watch)
+        # what the amend handler saw when it answered "carry on": read from the committed database in the same
+        # event-loop turn in which the handler returns (nothing can commit in between)
+        from stepup.core.director import DirectorHandler
+
+        amend_obs = []
+        orig_amend_handler = DirectorHandler.amend_step
+
+        async def amend_seen(self_, job_i, inp_paths, *rest):
+            answer = await orig_amend_handler(self_, job_i, inp_paths, *rest)
+            if answer is True and inp_paths:
+                marks = ",".join("?" for _ in inp_paths)
+                rows = sim.query(f"SELECT label, state, detached FROM node JOIN file ON file.node = node.i "
+                                 f"WHERE label IN ({marks})", tuple(str(p) for p in inp_paths))
+                try:
+                    label = self_.scheduler.get_job_step(job_i).label
+                except Exception:  # noqa: BLE001
+                    label = f"job {job_i}"
+                amend_obs.append((label, sim.session.clock.t if sim.session is not None else -1,
+                                  [str(p) for p in inp_paths], rows))
+            return answer
+
+        DirectorHandler.amend_step = amend_seen
+        try:
+            res = sim.build(**kw, schedule=RandomSchedule(spec["sched_seed"]), external=ext, on_commit=watch)
+        finally:
+            DirectorHandler.amend_step = orig_amend_handler
         count("builds")
         count("build-status:" + res.status + ":" + (str(res.returncode.value) if res.returncode is not None else "x"))
         count("commands", len(res.runs))
@@ -851,6 +891,13 @@ def run_build_case(spec: dict) -> dict:
             digest = digests[0]
             if recorded.get(path) != digest:
                 cause = "input-unchecked-at-completion" if unchecked(path, run) else "record-updated-during-run"
+                for a_label, t_amend, _paths, rows in amend_obs:
+                    if a_label == label and run.start <= t_amend <= (run.end or t_amend):
+                        for a_path, st, det in rows:
+                            if a_path == path and (det or st not in (BUILT, CONFIRMED)):
+                                sname = {12: "UNCONFIRMED", 13: "MISSING", 15: "PLANNED", 17: "OUTDATED",
+                                         11: "UNDECLARED"}.get(st, str(st))
+                                cause = "amend-accepted-while-input-" + ("detached" if det else sname)
                 flagged_steps.add(label)
                 finding("succeeded-on-stale-input:" + cause,
                         f"step '{label}' is SUCCEEDED at the end of the build; its last command read '{path}' with "
@@ -944,6 +991,14 @@ def run_build_case(spec: dict) -> dict:
                                 f"finished a successful run at time {prun.end}, after the amending command had started: "
                                 f"ran_concurrently did not report it", step=run.label, path=path, producer=prod,
                                 external=ext, events=[list(e[:2]) for e in res.events][-40:])
+    # (e) statistics only: inputs of accepted amends that were not available when the handler answered.  The
+    # property speaks about the outcome ("runs again later instead of succeed"), which oracle (a) decides; the
+    # observation is used there to name the mechanism.
+    for label, t_amend, paths, rows in amend_obs:
+        for path, st, det in rows:
+            count("accepted-amends-inputs-checked")
+            if det or st not in (BUILT, CONFIRMED):
+                count("accepted-amends-with-an-input-unavailable-at-the-answer")
     # (c) no command starts before its declared inputs are available
     for run in res.runs:
         sample = watch.before(run.start)
@@ -1000,6 +1055,28 @@ async def search(ctx):
             ctx.finding(Finding(PID, "oracle-case-" + status, f"simulated case {task['id']} ended with {status}",
                                 {"spec": task, "error": str(res)[-2000:]}))
     ctx.extra["sim_cases"] = ran
+    # the read-then-amend family with a directed schedule (shared with C01): the consumer reads the producer's
+    # output before (or in the middle of) its rewrite and amends it only after the producer, a later start and
+    # another stop; it must be run again, not recorded as succeeded on what it read
+    import asyncio as _asyncio
+
+    from props import c01 as _c01
+
+    for i in range(ctx.budget(16, 400)):
+        found, case = await _asyncio.to_thread(_c01.run_timing_case, ctx, i, salt="c03-timing")
+        ctx.stats.programs += 1
+        ctx.stats.count("sim:timing-family:" + ("const-producer" if case.get("const") else "plain"))
+        ctx.stats.case(("c03-timing", i), bool(case.get("compared")))
+        for sig, what, extra in found:
+            if sig.startswith("out-of-scope:"):
+                continue
+            if sig == "stale-output":
+                sig = "succeeded-on-stale-input:amended-after-read-while-producer-ran"
+                what = ("the consumer read its amended input before its producer had finished and was recorded as "
+                        "succeeded instead of being run again: " + what)
+            ctx.finding(Finding(PID, sig, what, {
+                "timing_case": {"verif_seed": ctx.seed, "salt": "c03-timing", "index": i}, **extra,
+                "how": "props/c01.py run_timing_case(ctx, index, salt='c03-timing') with ctx of C03"}))
     ctx.stats.rule = (ctx.stats.rule + " | " if ctx.stats.rule else "") + (
         "builds: one case = one generated project (3-6 steps, amended inputs on about half of them, before or "
         "after a first read), one random schedule with 2-4 jobs, fresh / rebuild after an edit / restart after a "
@@ -1008,6 +1085,18 @@ async def search(ctx):
 
 
 async def replay(ctx, detail):
+    _d = detail.get("detail", detail)
+    if _d.get("timing_case"):
+        import asyncio as _asyncio
+
+        from props import c01 as _c01
+
+        tc = _d["timing_case"]
+        os.environ["VERIF_SEED"] = str(tc.get("verif_seed", 0))
+        ctx.seed = int(tc.get("verif_seed", 0))
+        found, case = await _asyncio.to_thread(_c01.run_timing_case, ctx, int(tc["index"]), salt=tc["salt"])
+        return {"reproduced": any(not s.startswith("out-of-scope:") for s, _, _ in found),
+                "signature": detail.get("signature", ""), "found": [[s, w] for s, w, _ in found]}
     import simpool
 
     d = detail.get("detail", {})
